@@ -93,7 +93,16 @@ func GenShapeZoo(idx int) *ir.Request {
 		{Name: "display_name", Number: 2, Kind: "string", JSONName: "label"},
 		{Name: "big_total", Number: 3, Kind: "int64", JSONName: "total"},
 	}}
-	f.Messages = []*ir.Message{leaf, stamps, textV, imageV, gone, emptyZ, mkEvent("OneofFlatZ", true), mkEvent("OneofNestedZ", false), find, del, nick, flatNull, alias, aliasPut}
+	// map-value unwrap whose wrapper has MORE than its unwrap list: the map value still collapses to the
+	// bare array on the wire (FindUnwrapField), whatever else the wrapper declares
+	barZ := &ir.Message{Name: "BarZ", Fields: []*ir.Field{{Name: "px", Number: 1, Kind: "double"}, {Name: "venue", Number: 2, Kind: "string"}}}
+	pageZ := &ir.Message{Name: "BarsPageZ", Fields: []*ir.Field{
+		{Name: "bars", Number: 1, Kind: "message", TypeName: P + "BarZ", Card: "repeated", Ann: ir.Ann{Unwrap: true}},
+		{Name: "next_token", Number: 2, Kind: "string"}}}
+	quotesZ := &ir.Message{Name: "QuotesZ", Fields: []*ir.Field{
+		{Name: "by_symbol", Number: 1, Kind: "message", TypeName: P + "BarsPageZ", Card: "map", MapKey: "string"},
+		{Name: "label", Number: 2, Kind: "string"}}}
+	f.Messages = []*ir.Message{leaf, stamps, textV, imageV, gone, emptyZ, mkEvent("OneofFlatZ", true), mkEvent("OneofNestedZ", false), find, del, nick, flatNull, alias, aliasPut, barZ, pageZ, quotesZ}
 	f.Services = []*ir.Service{{Name: "Zoo", BasePath: "/zoo", Methods: []*ir.Method{
 		{Name: "PutStamps", Input: P + "PlainStamps", Output: P + "PlainStamps", Config: &ir.HTTPConfig{Path: "/stamps", Method: "POST"}},
 		{Name: "PutFlat", Input: P + "OneofFlatZ", Output: P + "OneofFlatZ", Config: &ir.HTTPConfig{Path: "/flat", Method: "POST"}},
@@ -104,6 +113,7 @@ func GenShapeZoo(idx int) *ir.Request {
 		{Name: "PutFlatNull", Input: P + "FlatNullZ", Output: P + "FlatNullZ", Config: &ir.HTTPConfig{Path: "/flatnull", Method: "POST"}},
 		{Name: "GetAlias", Input: P + "AliasGet", Output: P + "AliasPut", Config: &ir.HTTPConfig{Path: "/alias/{user_id}", Method: "GET"}},
 		{Name: "PutAlias", Input: P + "AliasPut", Output: P + "AliasPut", Config: &ir.HTTPConfig{Path: "/alias/{user_id}", Method: "PUT"}},
+		{Name: "PutQuotes", Input: P + "QuotesZ", Output: P + "QuotesZ", Config: &ir.HTTPConfig{Path: "/quotes", Method: "POST"}},
 	}}}
 	return &ir.Request{Files: []*ir.File{f}, Generate: []string{f.Name}}
 }
